@@ -78,6 +78,18 @@ pub fn parse_until<'a, T: Parse + Clone + Debug>(
         && !{
             deferred = deferred_determiner.check_input(input);
             if deferred {
+                //
+                // `~` defers the combinator it stands in front of: it can't precede an operand, a `,`,
+                // a handler or nothing at all.
+                //
+                let forked = input.fork();
+                deferred_determiner.erase_input(&forked)?;
+                if !group_determiners
+                    .clone()
+                    .any(|group| group.combinator().is_some() && group.check_input(&forked))
+                {
+                    return Err(forked.error("Expected combinator after `~`"));
+                }
                 deferred_determiner.erase_input(input)?;
             }
 
@@ -106,13 +118,6 @@ pub fn parse_until<'a, T: Parse + Clone + Debug>(
     {
         let next: TokenTree = input.parse()?;
         next.to_tokens(&mut tokens);
-    }
-
-    //
-    // `~` defers the combinator it stands in front of: it can't precede a `,`, a handler or nothing at all.
-    //
-    if deferred && next.and_then(GroupDeterminer::combinator).is_none() {
-        return Err(input.error("Expected combinator after `~`"));
     }
 
     //
